@@ -128,6 +128,9 @@ def gen_function(rng, name="f_target", kind=None, style=None, doc_mode=None, ord
     body = []
     if with_body:
         body = gen_body(rng, [p["name"] for p in params if p["kind"] != "kwargs"])
+        if doc is not None and rng.random() < 0.15:
+            # a bare string statement right after the docstring (a section marker): a statement, not a second docstring
+            body = ["'zq_section_{}: first part'".format(rng.randint(100, 999))] + body
         lines += ["    " + l for l in body]
     if ret_expr is not None:
         if ret_expr in ("zq_result", "(alpha_zq, 2)"):
@@ -325,7 +328,7 @@ def gen_module(rng, max_depth=3, want=None):
         scope_names.add(nm)
         pad = "    " * indent
         if rng.random() < 0.6:
-            lines.append(pad + "{}: {} = {}".format(nm, rng.choice(["int", "str", "Optional[int]"]), rng.choice(["1", "'v'", "None"])))
+            lines.append(pad + "{}: {} = {}".format(nm, rng.choice(["int", "str", "Optional[int]", "'ZqNode'"]), rng.choice(["1", "'v'", "None"])))
             kind = "annassign"
         else:
             lines.append(pad + "{} = {}".format(nm, rng.choice(["1", "'v'", "[1, 2]"])))
